@@ -185,8 +185,11 @@ where
     T: Copy + std::fmt::Debug + lexical_core::ToLexical + lexical_core::FormattedSize,
 {
     l.eval(1);
+    // the reference writes into a generous buffer: the facade sizes its own buffer from FORMATTED_SIZE_DECIMAL,
+    // and a constant that is too small must not make both sides panic alike (seeded change C17-G). The default
+    // API has no documented panic, so a panic on either side is a difference.
     let core = guard(|| {
-        let mut buf = vec![0u8; <T as lexical_core::FormattedSize>::FORMATTED_SIZE_DECIMAL];
+        let mut buf = vec![0u8; <T as lexical_core::FormattedSize>::FORMATTED_SIZE_DECIMAL.max(lexical_core::BUFFER_SIZE) + 64];
         let n = lexical_core::write(v, &mut buf).len();
         buf.truncate(n);
         buf
@@ -194,7 +197,6 @@ where
     let facade = guard(|| lexical::to_string(v).into_bytes());
     match (&core, &facade) {
         (Ok(a), Ok(b)) if a == b && a.iter().all(|&x| x < 0x80) => Ok(()),
-        (Err(_), Err(_)) => Ok(()),
         (a, b) => Err(Fail::new(format!("to_string({v:?}): lexical_core {:?} vs lexical {:?}", a.as_ref().map(|x| show(x)), b.as_ref().map(|x| show(x))))),
     }
 }
